@@ -242,6 +242,7 @@ structure St where
   futs : List FutInfo := []
   rasync : Bool := false
   nA : Nat := 0
+  wbase : List (String × Nat) := []
 
 def kv (ws : List String) (key : String) : Option String :=
   (ws.find? (fun w => w.startsWith (key ++ "="))).map (fun w => (w.drop (key.length + 1)).toString)
@@ -697,7 +698,8 @@ def stepR (st : St) (t : Nat) (tok : String) : Except String (St × List String)
           match st.futs.find? (fun i => i.name == f) with
           | some fi =>
             if fi.recv then
-              if tok == s!"n:{st.s.wakes fi.id}" then .ok (st, ["wakes"]) else .error s!"model=n:{st.s.wakes fi.id}"
+              let base := ((st.wbase.find? (fun p => p.1 == f)).map (·.2)).getD 0
+              if tok == s!"n:{st.s.wakes fi.id - base}" then .ok (st, ["wakes"]) else .error s!"model=n:{st.s.wakes fi.id - base}"
             else .ok (st, [])
           | none => .ok (st, [])
         | _ => .ok (st, [])
@@ -739,7 +741,15 @@ def step (st : St) (op _res : List String) : Except String (St × List String) :
     | none => .error "bad-line"
   | "C" :: tid :: ws =>
     match tid.toNat? with
-    | some t => .ok ({ st with pending := (t, ws) :: st.pending.filter (fun p => p.1 != t) }, [])
+    | some t =>
+      let st :=
+        match ws with
+        | ["poll", f] =>
+          match st.futs.find? (fun (i : FutInfo) => i.name == f && i.live) with
+          | some fi => { st with wbase := (f, st.s.wakes fi.id) :: st.wbase.filter (fun p => p.1 != f) }
+          | none => st
+        | _ => st
+      .ok ({ st with pending := (t, ws) :: st.pending.filter (fun p => p.1 != t) }, [])
     | none => .error "bad-line"
   | ["R", tid, tok] =>
     match tid.toNat? with
